@@ -92,6 +92,16 @@ class AGreater(Predicate):
         return self.x.a > self.k
 
 
+@dataclass(eq=False)
+class IntGreater(Predicate):
+    """usable with plain values only: then it is an ordinary object that stands as a condition"""
+    x: int
+    k: int
+
+    def __call__(self):
+        return self.x > self.k
+
+
 class Boom(Exception):
     """raised by user code on purpose (fault injection through supplied predicates)"""
 
